@@ -23,6 +23,9 @@ var stopPool = []string{"A01N", "A01S", "M11N", "M11S", "M12N", "M16S", "M18X", 
 
 func genStartTime(r *Rng) string {
 	switch r.Intn(8) {
+	case 1:
+		// boundary values: midnight parses to the zero duration an absent start time also has
+		return r.Pick([]string{"00:00:00", "00:00:00", "00:00:01", "00:01:00", "23:59:59", "24:00:00", "99:99:99", "00:00:60"})
 	case 0:
 		return r.Pick([]string{"1:02:03", "25:61:61", "aa:bb:cc", "", "12:34:56 ", "123:00:00"})
 	default:
@@ -72,6 +75,12 @@ func genStartDate(r *Rng, named bool) string {
 		}
 	}
 	switch r.Intn(10) {
+	case 2:
+		// boundary dates: the Unix epoch, a leap day, year ends, year 1 (named zones keep to 1990-2034)
+		if named {
+			return r.Pick([]string{"20240229", "20231231", "20240101", "19900101", "20341231", "20230230"})
+		}
+		return r.Pick([]string{"19700101", "19691231", "20240229", "20231231", "00010101", "99991231", "20230230", "00000000"})
 	case 0:
 		return r.Pick([]string{"2024-01-01", "202401", "", "2024010a", "202401011"})
 	case 1:
@@ -262,6 +271,9 @@ func (g *rtGen) vehiclePosition(r *Rng, base int64) map[string]any {
 	}
 	if r.P(1, 2) {
 		vp["occupancyStatus"] = r.Intn(9)
+		if r.P(1, 8) {
+			vp["occupancyStatus"] = r.Pick3(9, 100, 2147483647) // values outside the enumeration are carried as they are
+		}
 	}
 	if r.P(1, 2) {
 		vp["occupancyPercentage"] = numEdge(r, 32, false)
@@ -343,6 +355,9 @@ func (g *rtGen) alert(r *Rng, k int, trips []map[string]any, base int64) (string
 		p := map[string]any{}
 		if r.P(2, 3) {
 			p["start"] = base + int64(r.Intn(1000))
+			if r.P(1, 8) {
+				p["start"] = []any{0, 1, r.U64()}[r.Intn(3)]
+			}
 		}
 		if r.P(1, 2) {
 			if r.P(1, 10) {
@@ -362,9 +377,15 @@ func (g *rtGen) alert(r *Rng, k int, trips []map[string]any, base int64) (string
 	a["informed"] = sels
 	if r.P(1, 2) {
 		a["cause"] = 1 + r.Intn(12)
+		if r.P(1, 8) {
+			a["cause"] = r.Pick3(0, 13, 1000)
+		}
 	}
 	if r.P(1, 2) {
 		a["effect"] = 1 + r.Intn(11)
+		if r.P(1, 8) {
+			a["effect"] = r.Pick3(0, 12, 1000)
+		}
 	}
 	for _, k := range []string{"url", "header", "description"} {
 		if r.P(1, 2) {
